@@ -58,6 +58,9 @@ Inductive case :=
 | CRRSeq (ring : list nat) (c0 : N) (k : nat) (impl : list nat) (impl_c : N)
 (* [threads] goroutines x [per] picks concurrently: picks per target, final cursor *)
 | CRRConc (ring : list nat) (c0 : N) (threads per : nat) (impl_counts : list nat) (impl_c : N)
+(* [threads] goroutines x [per] lookups with the random picker on a route with [ntargets] targets whose
+   ring is [ring]: picks per target, recovered panics, picks that are not a target of the route *)
+| CRndConc (ring : list nat) (threads per : nat) (impl_counts : list nat) (impl_panics impl_foreign : nat)
 (* sequential Table.Lookup on a table given as candidate hosts in visiting order; the cursor of
    the answering route is [cursor]; impl = (host idx, route idx, target idx, Location) *)
 | CLookup (hosts : list (list route)) (path host : str) (cursor : N)
@@ -131,6 +134,12 @@ Definition check_case (c : case) : N :=
       let same := same0 && exact (want c0) in
       let spec := same0 && (exact (want c0) || exact (want (N.modulo (c0 + 1) two64))) in
       verdict same spec None (Nat.ltb 1 threads)
+  | CRndConc ring threads per impl_counts impl_panics impl_foreign =>
+      (* C06_rnd_pick_member: no panic, every pick a member of the ring (a target with a positive weight) *)
+      let same := Nat.eqb impl_panics 0 && Nat.eqb impl_foreign 0
+                  && Nat.eqb (sum_nat impl_counts) (threads * per)
+                  && all2 (fun t cnt => Nat.eqb cnt 0 || existsb (Nat.eqb t) ring) (seq 0 (length impl_counts)) impl_counts in
+      verdict same same None (Nat.ltb 1 threads)
   | CLookup hosts path host cursor impl =>
       let s0 := {| lk_cursor := fun _ => cursor; lk_redirect := fun _ => None |} in
       match fst (lookup hosts path host s0) with
